@@ -22,6 +22,100 @@ fn single(rx: Rx) -> Case {
     }
 }
 
+fn multi(rxs: Vec<Rx>) -> Case {
+    Case {
+        modes: vec![ModeSpec {
+            name: "M".into(),
+            pats: rxs
+                .into_iter()
+                .enumerate()
+                .map(|(i, rx)| PatSpec { rx, tt: i, la: None })
+                .collect(),
+            transitions: vec![],
+        }],
+        ..Case::default()
+    }
+}
+
+/// A near-identical sibling of a class: polarity of the class or of a named item toggled,
+/// literal escape form changed; classes that a registry keyed too coarsely would confuse.
+fn sibling(d: &mut Dec, cl: &Class) -> Class {
+    fn flip_first_named(s: &mut ClassSet) -> bool {
+        match s {
+            ClassSet::Items(v) => {
+                for it in v.iter_mut() {
+                    match it {
+                        ClassItem::Named(_, neg) => {
+                            *neg = !*neg;
+                            return true;
+                        }
+                        ClassItem::Bracket(b) => {
+                            if flip_first_named(&mut b.set) {
+                                return true;
+                            }
+                        }
+                        _ => {}
+                    }
+                }
+                false
+            }
+            ClassSet::BinOp(_, l, r) => flip_first_named(l) || flip_first_named(r),
+        }
+    }
+    fn change_first_form(s: &mut ClassSet) -> bool {
+        match s {
+            ClassSet::Items(v) => {
+                for it in v.iter_mut() {
+                    match it {
+                        ClassItem::Lit(_, f) => {
+                            *f = if *f == LitForm::UBrace { LitForm::Verbatim } else { LitForm::UBrace };
+                            return true;
+                        }
+                        ClassItem::Bracket(b) => {
+                            if change_first_form(&mut b.set) {
+                                return true;
+                            }
+                        }
+                        _ => {}
+                    }
+                }
+                false
+            }
+            ClassSet::BinOp(_, l, r) => change_first_form(l) || change_first_form(r),
+        }
+    }
+    match cl {
+        Class::Named(n, neg) => match d.below(3) {
+            0 => Class::Named(n.clone(), !neg),
+            1 => Class::Bracket(Bracket {
+                negated: !neg,
+                set: ClassSet::Items(vec![ClassItem::Named(n.clone(), false)]),
+            }),
+            _ => Class::Bracket(Bracket {
+                negated: false,
+                set: ClassSet::Items(vec![ClassItem::Named(n.clone(), !neg)]),
+            }),
+        },
+        Class::Bracket(b) => {
+            let mut nb = b.clone();
+            match d.below(3) {
+                0 => nb.negated = !nb.negated,
+                1 => {
+                    if !flip_first_named(&mut nb.set) {
+                        nb.negated = !nb.negated;
+                    }
+                }
+                _ => {
+                    if !change_first_form(&mut nb.set) {
+                        nb.negated = !nb.negated;
+                    }
+                }
+            }
+            Class::Bracket(nb)
+        }
+    }
+}
+
 fn all_named() -> Vec<Named> {
     let mut v = vec![
         Named::Perl(PerlKind::Digit),
@@ -105,7 +199,7 @@ impl Check for C08 {
         "C08"
     }
     fn rule(&self) -> &'static str {
-        "case = one single-character pattern: a generated bracketed class of nesting depth <= 3 (4 thorough) built from literals in every escape form, ranges (single point, across the surrogate gap, up to U+10FFFF), Perl / ASCII / Unicode named items with both negation syntaxes, nested brackets, negation at every level, unions and bracket-wrapped operands of && -- ~~ (also chained); plus every class of the repository corpora; plus fixed cases: every literal form of every alphabet character, `.`, every named item alone and negated; oracle = for EVERY one of the 1 112 064 scalar values: the character is a token of the scanner built from that single pattern (public API, input = the string of all scalar values, every token exactly one character) iff the boolean evaluation of the expression says so, named items looked up in their base sets measured when used alone; \\d \\s \\w restricted to ASCII must be [0-9], [\\t\\n\\x0B\\x0C\\r ], [0-9A-Za-z_]; non-trivial = expression with a set operator or a negation below the top level; exhaustive in the character dimension"
+        "case = one to three single-character patterns in one scanner (the further ones mostly near-identical siblings of the first: polarity of the class or of a named item toggled, literal escape form changed; pattern j is expected to get what the earlier patterns leave over), the first a generated bracketed class of nesting depth <= 3 (4 thorough) built from literals in every escape form, ranges (single point, across the surrogate gap, up to U+10FFFF), Perl / ASCII / Unicode named items with both negation syntaxes, nested brackets, negation at every level, unions and bracket-wrapped operands of && -- ~~ (also chained); plus every class of the repository corpora; plus fixed cases: every literal form of every alphabet character, `.`, every named item alone and negated, and both polarities of every named item together in one scanner in both orders; oracle = for EVERY one of the 1 112 064 scalar values: the character is a token of the scanner built from that single pattern (public API, input = the string of all scalar values, every token exactly one character) iff the boolean evaluation of the expression says so, named items looked up in their base sets measured when used alone; \\d \\s \\w restricted to ASCII must be [0-9], [\\t\\n\\x0B\\x0C\\r ], [0-9A-Za-z_]; non-trivial = expression with a set operator or a negation below the top level; exhaustive in the character dimension"
     }
     fn assumptions(&self) -> Vec<String> {
         vec![
@@ -159,6 +253,13 @@ impl Check for C08 {
                 set: ClassSet::Items(vec![ClassItem::Named(n, true)]),
             }))));
         }
+        // both polarities of the same named item in ONE scanner, in both orders (a registry that
+        // identifies them would give both the same predicate)
+        for n in all_named() {
+            let alone = |neg: bool| Rx::Class(Class::Named(n.clone(), neg));
+            v.push(multi(vec![alone(false), alone(true)]));
+            v.push(multi(vec![alone(true), alone(false)]));
+        }
         // corpus classes
         let mut seen = std::collections::HashSet::new();
         for c in super::automaton::corpus_cases() {
@@ -186,70 +287,107 @@ impl Check for C08 {
             class_depth: if thorough { 4 } else { 3 },
             ..GenParams::for_tier(thorough)
         };
-        let b = gen::gen_bracket(d, &p, p.class_depth);
-        single(Rx::Class(Class::Bracket(b)))
+        let first = if d.chance(40) {
+            gen::gen_class(d, &p)
+        } else {
+            Class::Bracket(gen::gen_bracket(d, &p, p.class_depth))
+        };
+        let mut rxs = vec![Rx::Class(first.clone())];
+        let extra = d.weighted(&[5, 4, 2]);
+        for _ in 0..extra {
+            let c2 = if d.chance(170) {
+                sibling(d, &first)
+            } else {
+                gen::gen_class(d, &p)
+            };
+            rxs.push(Rx::Class(c2));
+        }
+        multi(rxs)
     }
     fn extra_coverage(&self, _agg: &Aggregate) -> Value {
         json!({"exhaustive": true, "chars_per_case": NSCALARS})
     }
     fn check(&self, case: &Case) -> CheckResult {
-        if case.modes.len() != 1 || case.modes[0].pats.len() != 1 || case.modes[0].pats[0].la.is_some() {
+        if case.modes.len() != 1
+            || case.modes[0].pats.is_empty()
+            || case.modes[0].pats.len() > 4
+            || case.modes[0].pats.iter().enumerate().any(|(i, p)| p.la.is_some() || p.tt != i)
+        {
             return Ok(discard("discard_shape"));
         }
-        let rx = &case.modes[0].pats[0].rx;
-        let expected: BitSet = match rx {
-            Rx::Lit(c, _) => {
-                let mut s = BitSet::empty();
-                s.set(*c);
-                s
-            }
-            Rx::Dot => {
-                let mut s = BitSet::full();
-                let mut nl = BitSet::empty();
-                nl.set('\n');
-                nl.set('\r');
-                s.andnot_with(&nl);
-                s
-            }
-            Rx::Class(c) => sets::class_set(c),
-            _ => return Ok(discard("discard_shape")),
-        };
+        let mut refs: Vec<BitSet> = Vec::new();
+        for p in &case.modes[0].pats {
+            refs.push(match &p.rx {
+                Rx::Lit(c, _) => {
+                    let mut s = BitSet::empty();
+                    s.set(*c);
+                    s
+                }
+                Rx::Dot => {
+                    let mut s = BitSet::full();
+                    let mut nl = BitSet::empty();
+                    nl.set('\n');
+                    nl.set('\r');
+                    s.andnot_with(&nl);
+                    s
+                }
+                Rx::Class(c) => sets::class_set(c),
+                _ => return Ok(discard("discard_shape")),
+            });
+        }
+        // with several patterns the first listed one wins a tie: pattern j gets what the earlier
+        // ones leave over
+        let mut expected: Vec<BitSet> = Vec::new();
+        let mut taken = BitSet::empty();
+        for r in &refs {
+            let mut e = r.clone();
+            e.andnot_with(&taken);
+            taken.or_with(r);
+            expected.push(e);
+        }
         let mut st = CaseStats::default();
         let scanner = match build_guarded(case, false)? {
             Ok(s) => s,
-            Err(e) => {
+            Err(_) => {
                 // every generated class is made of supported constructs; C15 judges build errors
                 st.count("build_failed");
                 st.inconclusive = true;
-                let _ = e;
                 return Ok(st);
             }
         };
-        let measured = match guard(|| sets::measure_scanner(&scanner)) {
+        let k = refs.len();
+        let measured = match guard(|| sets::measure_scanner_multi(&scanner, k)) {
             Err(p) => return Err(Failure::panic("c08.panic", "scanning all scalar values panicked", p)),
             Ok(Err(e)) => return Err(Failure::new("c08.token_shape", e)),
             Ok(Ok(m)) => m,
         };
-        if let Some(c) = measured.first_difference(&expected) {
-            let n = measured.difference_count(&expected);
-            return Err(Failure::new(
-                "c08.membership",
-                format!(
-                    "{:?} (U+{:04X}) is {} by the scanner built from {:?} but the set algebra of its parts says the opposite ({} characters differ)",
-                    c,
-                    c as u32,
-                    if measured.get(c) { "matched" } else { "not matched" },
-                    print(rx),
-                    n
-                ),
-            )
-            .exp_obs(expected.get(c), measured.get(c)));
+        for j in 0..k {
+            if let Some(c) = measured[j].first_difference(&expected[j]) {
+                let n = measured[j].difference_count(&expected[j]);
+                return Err(Failure::new(
+                    "c08.membership",
+                    format!(
+                        "{:?} (U+{:04X}) is {} as pattern {} = {:?} by the scanner built from {:?}, but the set algebra of the parts says the opposite ({} characters differ)",
+                        c,
+                        c as u32,
+                        if measured[j].get(c) { "matched" } else { "not matched" },
+                        j,
+                        print(&case.modes[0].pats[j].rx),
+                        case.modes[0].pats.iter().map(|p| print(&p.rx)).collect::<Vec<_>>(),
+                        n
+                    ),
+                )
+                .exp_obs(expected[j].get(c), measured[j].get(c)));
+            }
         }
+        st.flag("several_classes_in_one_scanner", k > 1);
+        let rx = &case.modes[0].pats[0].rx;
+        let measured = &measured[0];
         // ASCII ground truth of \d \s \w and their negations
-        if let Rx::Class(Class::Named(Named::Perl(k), neg)) = rx {
+        if let Rx::Class(Class::Named(Named::Perl(kind), neg)) = rx {
             let mut m = measured.clone();
             m.and_with(&ascii_mask());
-            let mut truth = ascii_truth(*k);
+            let mut truth = ascii_truth(*kind);
             if *neg {
                 let mut t = ascii_mask();
                 t.andnot_with(&truth);
@@ -264,22 +402,26 @@ impl Check for C08 {
             }
             st.count("ascii_ground_truth_checks");
         }
-        match rx {
-            Rx::Class(Class::Bracket(b)) => {
-                let op = has_set_op(&b.set);
-                let neg = has_inner_negation(&b.set);
-                st.flag("with_set_operator", op);
-                st.flag("with_inner_negation", neg);
-                st.flag("top_negated", b.negated);
-                st.flag("depth_ge_2", depth_of(&b.set) >= 2);
-                st.nontrivial = op || neg;
+        for p in &case.modes[0].pats {
+            match &p.rx {
+                Rx::Class(Class::Bracket(b)) => {
+                    let op = has_set_op(&b.set);
+                    let neg = has_inner_negation(&b.set);
+                    st.flag("with_set_operator", op);
+                    st.flag("with_inner_negation", neg);
+                    st.flag("top_negated", b.negated);
+                    st.flag("depth_ge_2", depth_of(&b.set) >= 2);
+                    if op || neg {
+                        st.nontrivial = true;
+                    }
+                }
+                Rx::Class(Class::Named(_, neg)) => {
+                    st.flag("named_alone", true);
+                    st.flag("named_alone_negated", *neg);
+                }
+                Rx::Lit(..) => st.count("literal_forms"),
+                _ => {}
             }
-            Rx::Class(Class::Named(_, neg)) => {
-                st.flag("named_alone", true);
-                st.flag("named_alone_negated", *neg);
-            }
-            Rx::Lit(..) => st.count("literal_forms"),
-            _ => {}
         }
         st.flag("corpus_class", case.extra.get("corpus_class").is_some());
         st.add("members", measured.count() as u64);
